@@ -277,6 +277,15 @@ func project(o *obj, names [][]byte, via int) ObjView {
 	return v
 }
 
+// hugeLen: lengths logged as 2^30 + k stand for the largest integers (MaxInt64 - k) in the call; the specification
+// (whose integers are 32-bit) sees a window that overhangs every alignment either way
+func hugeLen(n int) int {
+	if n >= 1<<30 {
+		return math.MaxInt64 - (n - 1<<30)
+	}
+	return n
+}
+
 // ---- events -----------------------------------------------------------------------------
 
 type HeapEvent struct {
@@ -624,7 +633,7 @@ func (h *heapRun) apply(st Step, ret map[string]interface{}) error {
 		ret["v"] = sb.Identical(h.get(ai(a, "other")).sb)
 	// ---------------- sites
 	case "SubAlign":
-		c, err := needAlign(o).SubAlign(ai(a, "start"), ai(a, "len"))
+		c, err := needAlign(o).SubAlign(ai(a, "start"), hugeLen(ai(a, "len")))
 		if err != nil {
 			return err
 		}
@@ -636,7 +645,7 @@ func (h *heapRun) apply(st Step, ret map[string]interface{}) error {
 		}
 		ret["new"] = h.addAlign(c)
 	case "InverseCoordinates":
-		s, l, err := needAlign(o).InverseCoordinates(ai(a, "start"), ai(a, "len"))
+		s, l, err := needAlign(o).InverseCoordinates(ai(a, "start"), hugeLen(ai(a, "len")))
 		ret["starts"], ret["lens"] = nn(s), nn(l)
 		return err
 	case "InversePositions":
@@ -646,7 +655,7 @@ func (h *heapRun) apply(st Step, ret map[string]interface{}) error {
 	case "TrimSequences":
 		return needAlign(o).TrimSequences(ai(a, "n"), ab(a, "fromstart"))
 	case "RefCoordinates":
-		s, l, err := needAlign(o).RefCoordinates(astr(a, "name"), ai(a, "start"), ai(a, "len"))
+		s, l, err := needAlign(o).RefCoordinates(astr(a, "name"), ai(a, "start"), hugeLen(ai(a, "len")))
 		ret["start"], ret["len"] = s, l
 		return err
 	case "RefSites":
@@ -722,7 +731,7 @@ func (h *heapRun) apply(st Step, ret map[string]interface{}) error {
 		ret["w"] = nn(needAlign(o).Compress())
 	// ---------------- mask
 	case "Mask":
-		return needAlign(o).Mask(astr(a, "ref"), ai(a, "start"), ai(a, "len"), astr(a, "repl"), ab(a, "nogap"), ab(a, "noref"))
+		return needAlign(o).Mask(astr(a, "ref"), ai(a, "start"), hugeLen(ai(a, "len")), astr(a, "repl"), ab(a, "nogap"), ab(a, "noref"))
 	case "MaskPositions":
 		// every position is converted (when given on a reference) and checked on the alignment as it is, then masked
 		al := needAlign(o)
